@@ -451,6 +451,11 @@ func raceSuite(c *Ctx) []Finding {
 	for cs := 0; cs < cases; cs++ {
 		g := newLibGen(r.Fork(), "C17", cs%2 == 0)
 		g.now = now
+		long := cs%6 == 2
+		if long {
+			// an archive of several thousand slots, read whole by many goroutines at once
+			g.lay = Layout{[]int{1, 10}, []int{5000, 1000}}
+		}
 		path := filepath.Join(dir, fmt.Sprintf("f%d.wsp", cs))
 		lay, _ := parseLay(g.lay.String())
 		db, err := wt.Create(path, lay, wt.AggregationMethod(g.agg), math.Float32frombits(g.xff))
@@ -471,6 +476,13 @@ func raceSuite(c *Ctx) []Finding {
 				pts, _ := parsePts(g.genBatch())
 				db.UpdatePointsForArchive(pts, -1, wt.Timestamp(now))
 			}
+			if long {
+				var pts []wt.Point
+				for j := 0; j < 4800; j++ {
+					pts = append(pts, wt.Point{Time: wt.Timestamp(now - j), Value: wt.Value(float64(j%977) + 0.5)})
+				}
+				db.UpdatePointsForArchive(pts, 0, wt.Timestamp(now))
+			}
 		}
 		db.Sync()
 		db.Close()
@@ -490,6 +502,10 @@ func raceSuite(c *Ctx) []Finding {
 			}
 			if u < f {
 				f, u = u, f
+			}
+			if long && i < 10 {
+				// whole-retention reads of the long archive, shifted by a few slots each
+				k, f, u = 0, now-5000+i, now-i%3
 			}
 			wins = append(wins, win{k, f, u})
 		}
